@@ -21,3 +21,89 @@ package rfc
 //@ table c09_raw_readers
 //@   rfc.(*mismatchingSigAlg).Execute        -- walks tbsCertificate.signature and signatureAlgorithm, stops before signatureValue
 //@   rfc.(*certExtensionInvalidDER).Execute  -- only whether asn1.Unmarshal of the whole certificate succeeds (the BIT STRING content is opaque)
+
+// ---------------------------------------------------------------------------
+// duplicated rules never contradict each other (C20). The pairs are the property's list.
+// relation: same = the same status; finding = finding versus no finding (status above pass);
+// implies = an error from the first comes with a finding from the second.
+// hypothesis: a spec function of the certificate stating "the same content" where the two members
+// do not look at the same fields by construction; mirror: reads of the second member are
+// redirected to the first member's fields (see c20mirrors).
+
+// the BR copies of the DNS-label rules also look at the common name; the RFC copies do not. With no
+// common name both look at the same names.
+//@ spec c20NoCommonName(c *x509.Certificate) bool = c.Subject.CommonName == ""
+//@ spec c20Always(c *x509.Certificate) bool = true
+
+//@ table c20mirrors
+//@   sanian field x509.Certificate.IANOtherNames OtherNames
+//@   sanian field x509.Certificate.IANDNSNames DNSNames
+//@   sanian field x509.Certificate.IANEmailAddresses EmailAddresses
+//@   sanian field x509.Certificate.IANDirectoryNames DirectoryNames
+//@   sanian field x509.Certificate.IANEDIPartyNames EDIPartyNames
+//@   sanian field x509.Certificate.IANURIs URIs
+//@   sanian field x509.Certificate.IANIPAddresses IPAddresses
+//@   sanian field x509.Certificate.IANRegisteredIDs RegisteredIDs
+//@   sanian global util.IssuerAlternateNameOID SubjectAlternateNameOID
+//@   subjiss field x509.Certificate.Issuer Subject
+//@   subjiss field x509.Certificate.RawIssuer RawSubject
+
+//@ table c20pairs
+//@   same e_rfc_dnsname_empty_label e_dnsname_empty_label c20NoCommonName -
+//@   same e_rfc_dnsname_hyphen_in_sld e_dnsname_hyphen_in_sld c20NoCommonName -
+//@   same e_rfc_dnsname_label_too_long e_dnsname_label_too_long c20NoCommonName -
+//@   same e_rfc_dnsname_underscore_in_sld e_dnsname_underscore_in_sld c20NoCommonName -
+//@   same w_rfc_dnsname_underscore_in_trd w_dnsname_underscore_in_trd c20NoCommonName -
+//@   same e_ext_san_dns_not_ia5_string e_ext_ian_dns_not_ia5_string - sanian
+//@   same e_ext_san_empty_name e_ext_ian_empty_name - sanian
+//@   same e_ext_san_no_entries e_ext_ian_no_entries - sanian
+//@   same e_ext_san_rfc822_format_invalid e_ext_ian_rfc822_format_invalid - sanian
+//@   same e_ext_san_space_dns_name e_ext_ian_space_dns_name - sanian
+//@   same e_ext_san_uri_format_invalid e_ext_ian_uri_format_invalid - sanian
+//@   same e_ext_san_uri_host_not_fqdn_or_ip e_ext_ian_uri_host_not_fqdn_or_ip - sanian
+//@   same e_ext_san_uri_not_ia5 e_ext_ian_uri_not_ia5 - sanian
+//@   same e_ext_san_uri_relative e_ext_ian_uri_relative - sanian
+//@   same w_subject_dn_leading_whitespace w_issuer_dn_leading_whitespace - subjiss
+//@   same w_subject_dn_trailing_whitespace w_issuer_dn_trailing_whitespace - subjiss
+//@   finding n_multiple_subject_rdn w_multiple_issuer_rdn - subjiss
+//@   same e_subject_dn_country_not_printable_string e_issuer_dn_country_not_printable_string - subjiss
+//@   same e_prohibit_dsa_usage e_br_prohibit_dsa_usage - -
+//@   finding w_sub_cert_aia_contains_internal_names w_smime_aia_contains_internal_names - -
+//@   implies e_tls_server_cert_valid_time_longer_than_398_days w_tls_server_cert_valid_time_longer_than_397_days - -
+
+// the strict / recommended length limits (C20): an error from the strict limit comes with a finding
+// from the recommended one. These four loops differ in their threshold, so structure cannot relate
+// them: each Execute gets its functional contract (loop invariant: no name so far exceeds the
+// limit) and the relation is a lemma over the two postconditions.
+//@ spec someLonger(names []string, limit int) bool = exists(i, 0, len(names), runeCount(names[i]) > limit)
+
+//@ func (*subjectGivenNameMaxLength).Execute [C20]
+//@   requires c != nil
+//@   nopanic
+//@   assigns \fresh
+//@   loop 1 invariant forall(j, 0, k, runeCount(c.Subject.GivenName[j]) <= 32768)
+//@   ensures result != nil && (result.Status == lint.Error || result.Status == lint.Pass)
+//@   ensures (result.Status == lint.Error) == someLonger(c.Subject.GivenName, 32768)
+//@ func (*SubjectGivenNameRecommendedMaxLength).Execute [C20]
+//@   requires c != nil
+//@   nopanic
+//@   assigns \fresh
+//@   loop 1 invariant forall(j, 0, k, runeCount(c.Subject.GivenName[j]) <= 64)
+//@   ensures result != nil && (result.Status == lint.Warn || result.Status == lint.Pass)
+//@   ensures (result.Status == lint.Warn) == someLonger(c.Subject.GivenName, 64)
+//@ func (*subjectSurnameMaxLength).Execute [C20]
+//@   requires c != nil
+//@   nopanic
+//@   assigns \fresh
+//@   loop 1 invariant forall(j, 0, k, runeCount(c.Subject.Surname[j]) <= 32768)
+//@   ensures result != nil && (result.Status == lint.Error || result.Status == lint.Pass)
+//@   ensures (result.Status == lint.Error) == someLonger(c.Subject.Surname, 32768)
+//@ func (*SubjectSurnameRecommendedMaxLength).Execute [C20]
+//@   requires c != nil
+//@   nopanic
+//@   assigns \fresh
+//@   loop 1 invariant forall(j, 0, k, runeCount(c.Subject.Surname[j]) <= 64)
+//@   ensures result != nil && (result.Status == lint.Warn || result.Status == lint.Pass)
+//@   ensures (result.Status == lint.Warn) == someLonger(c.Subject.Surname, 64)
+
+//@ lemma strict_implies_recommended(names []string) [C20]: implies(someLonger(names, 32768), someLonger(names, 64))
